@@ -3,6 +3,7 @@
 package main
 
 import (
+	"fmt"
 	"go/token"
 	"go/types"
 	"math/big"
@@ -22,15 +23,32 @@ func init() {
 			if !e.panicCheck(c.st, c.f, c.in, e.idxLe(e.idx(int64(w)), b.ln), "index out of range") {
 				return true
 			}
-			// fresh bytes with the linear constraint v = sum b_i * 256^(w-1-i)
-			o := c.st.mut(b.obj)
-			sum := e.tb.Int(0)
-			for i := 0; i < w; i++ {
-				by := e.freshInt(c.st, "pb", 8, false)
-				sum = e.tb.IAdd(e.tb.IMul(sum, e.tb.Int(256)), by.t)
-				o.arr = AStore{o.arr, e.idxAdd(b.off, e.idx(int64(i))), by.t}
+			// fresh bytes with the linear constraint v = sum b_i * 256^(w-1-i); the same value always
+			// decomposes into the same byte symbols on a path
+			val := e.iwrap(v.t, 8*w, false)
+			key := fmt.Sprintf("put%d:%d", w, val.id)
+			if c.st.divCache == nil {
+				c.st.divCache = map[string][2]Term{}
 			}
-			c.st.pc = append(c.st.pc, e.tb.Eq(sum, e.iwrap(v.t, 8*w, false)))
+			var bytesT []Term
+			if _, ok := c.st.divCache[key+":0"]; ok {
+				for i := 0; i < w; i++ {
+					bytesT = append(bytesT, c.st.divCache[fmt.Sprintf("%s:%d", key, i)][0])
+				}
+			} else {
+				sum := e.tb.Int(0)
+				for i := 0; i < w; i++ {
+					by := e.freshInt(c.st, "pb", 8, false)
+					sum = e.tb.IAdd(e.tb.IMul(sum, e.tb.Int(256)), by.t)
+					bytesT = append(bytesT, by.t)
+					c.st.divCache[fmt.Sprintf("%s:%d", key, i)] = [2]Term{by.t, by.t}
+				}
+				c.st.pc = append(c.st.pc, e.tb.Eq(sum, val))
+			}
+			o := c.st.mut(b.obj)
+			for i := 0; i < w; i++ {
+				o.arr = AStore{o.arr, e.idxAdd(b.off, e.idx(int64(i))), bytesT[i]}
+			}
 			return true
 		}
 		iaStubs["(encoding/binary.bigEndian)."+name] = func(e *Engine, c *callCtx) bool {
@@ -123,6 +141,19 @@ func boundOf(b SliceV) int {
 // arbitraryDecode: the decoder applied to an attacker-chosen string returns "invalid" or arbitrary bytes.
 func (e *Engine) arbitraryDecode(c *callCtx, maxLen int, base36 bool) {
 	st := c.st
+	// decoding the same string twice gives the same result
+	src := c.args[0].(StrV)
+	memoKey := ""
+	if src.k == strOpaque && src.t != nil {
+		memoKey = fmt.Sprintf("decode:%v:%s:%d", base36, src.tag, src.t.id)
+		if v, ok := st.ghost[memoKey]; ok {
+			c.set(v)
+			return
+		}
+	}
+	if st.ghost == nil {
+		st.ghost = map[string]Value{}
+	}
 	valid := e.tb.Sym("dec_ok", boolSort)
 	st.inputs = append(st.inputs, inputRec{kind: "bool", t: valid})
 	alive, val, other := e.branch(st, valid)
@@ -158,6 +189,12 @@ func (e *Engine) arbitraryDecode(c *callCtx, maxLen int, base36 bool) {
 			} else {
 				res = TupleV{sl, IfaceV{}}
 			}
+		}
+		if memoKey != "" {
+			if s.ghost == nil {
+				s.ghost = map[string]Value{}
+			}
+			s.ghost[memoKey] = res
 		}
 		if c.res != nil {
 			s.top().locals[c.res] = res
